@@ -132,7 +132,11 @@ def judge_member(res, bad, value, t, where, node, collided, stats):
 
 def judge_c06(res6, text, db, k, wit):
     se = StubEval(text)
+    collided = {loc.split()[-1] for kind, _d, loc in se.events if kind == "typeddict-class-name-collision"}
     for name, n in (se.typeddict_classes() if not se.syntax_error else []):
+        if any(name.split("#")[0].startswith(c) or c.startswith(name.split("#")[0]) for c in collided):
+            res6.count("stub_typeddict_classes_skipped_name_collision")
+            continue
         res6.count("stub_typeddict_classes")
         if k == 0:
             res6.violation("typeddict-class-in-stub-with-limit-zero", f"class {name} in a stub generated with limit 0", wit)
@@ -185,6 +189,7 @@ def work(p):
 
             fam = gv.dict_family_members(keys=("a", "b", "c", "d"), vals=("1", "'x'", "None"))
             big = ["{" + ", ".join(f"'{c}': {i}" for i, c in enumerate("abcdefghijkl"[:n])) + "}" for n in (2, 3, 4, 9, 10, 11)]
+            opts["wide"] = True
             opts["pool"] = rng.sample(fam, 40) + big + ["[" + ", ".join(rng.sample(fam, 3)) + "]" for _ in range(10)] + ["1", "None", "'s'"]
         m = gm.Mod(rng, spec["name"], opts).build(spec.get("nfuncs", 10))
         try:
